@@ -247,6 +247,35 @@ def _run(ix, R):
         contrib_pipeline(ix, R, SM + '::SimpleForwardModel.' + nm, nm == 'model_full_contrib')
     # ---- 6. unique names
     unique_names(ix, R, base)
+    # ---- 7. every source that is added is kept
+    site = 'taurex/model/model.py::ForwardModel.add_contribution'
+    with R.guard('7.add', 'EFF', site, 'add_contribution'):
+        f = ix.func(site)
+        fl = mkflow(ix, site)
+        pe = param_env(fl, f, ['c'])
+        lst = code(fl, 'self.contribution_list')
+        why = []
+        apps = [e for e in calls(fl, 'append') if e.recv_rf is not None and fl.tab.equal(e.recv_rf, lst)]
+        if len(apps) != 1 or len(apps[0].args) != 1 or not fl.tab.equal(apps[0].args[0], pe['c']) or apps[0].loops:
+            why.append('the contribution is not appended to contribution_list exactly once')
+        else:
+            for g in apps[0].guards:
+                # only "not already in the list" may decide whether it is appended (anything else is rejected by a raise)
+                if not guard_is(fl, g, spec(fl, 'c in L', {'c': pe['c'], 'L': lst}), False):
+                    why.append('appended only under %s' % g.text())
+        # nothing else changes the list: no element is replaced or removed, the list is not re-bound
+        for e in fl.of('store'):
+            ta = atom_of(fl, e.target)
+            if fl.tab.equal(e.target, lst) or (ta is not None and ta.head == 'idx' and fl.tab.equal(ta.args[0], lst)):
+                why.append('%s replaces part of the list' % unparse(e.node)[:60])
+        for e in fl.of('call'):
+            if e.recv_rf is not None and fl.tab.equal(e.recv_rf, lst) and e.name in (
+                    'remove', 'pop', 'clear', 'insert', 'extend', 'sort', 'reverse', '__setitem__', '__delitem__'):
+                why.append('%s changes the list' % unparse(e.node)[:60])
+        R.check('7.add', 'EFF', site,
+                'add_contribution appends the given source to contribution_list (a source already in the list is an '
+                'error) and never replaces or removes another source: the total optical depth is over every source added',
+                not why, key='; '.join(why), detail='; '.join(why), loc=f.loc())
 
 
 def absorption_weighting(ix, R):
